@@ -145,20 +145,23 @@ theorem expandConstraints_ok {g : Graph} {cs : Constraints} {xs : List (List Edg
   match cs, h with
   | .nodes [], h => exact (Except.ok.inj h).symm
   | .edges [], h => exact (Except.ok.inj h).symm
-  | .nodes ([] :: _), h => exact nomatch h
-  | .edges ([] :: _), h => exact nomatch h
-  | .nodes ((a :: c) :: l), h =>
-    have h' : ((a :: c) :: l).mapM (fun c => c.mapM (expandedNode g)) = .ok xs := h
-    exact (mapM_ok_map (fun c : List Node => c.mapM (expandedNode g)) (·.map nodeEdge) (fun _ => True)
-      (fun a b hab => ⟨trivial, (mapM_expandedNode_ok hab).1⟩) _ xs h').1
-  | .edges ((a :: c) :: l), h =>
-    have h' : ((a :: c) :: l).mapM (fun c : List Edge =>
-        if c.all g.edges.contains then Except.ok (expandEdgeConstraint c) else Except.error "notin") = .ok xs := h
-    exact (mapM_ok_map _ expandEdgeConstraint (fun _ => True) (by
-      intro a b hab
-      by_cases hc : a.all g.edges.contains = true
-      · rw [if_pos hc] at hab; exact ⟨trivial, (Except.ok.inj hab).symm⟩
-      · rw [if_neg hc] at hab; exact nomatch hab) _ xs h').1
+  | .nodes (c0 :: l), h =>
+    unfold expandConstraints at h
+    simp only at h
+    split at h
+    · exact nomatch h
+    · exact (mapM_ok_map (fun c : List Node => c.mapM (expandedNode g)) (·.map nodeEdge) (fun _ => True)
+        (fun a b hab => ⟨trivial, (mapM_expandedNode_ok hab).1⟩) _ xs h).1
+  | .edges (c0 :: l), h =>
+    unfold expandConstraints at h
+    simp only at h
+    split at h
+    · exact nomatch h
+    · exact (mapM_ok_map _ expandEdgeConstraint (fun _ => True) (by
+        intro a b hab
+        by_cases hc : a.all g.edges.contains = true
+        · rw [if_pos hc] at hab; exact ⟨trivial, (Except.ok.inj hab).symm⟩
+        · rw [if_neg hc] at hab; exact nomatch hab) _ xs h).1
 
 theorem constraints_roundtrip {g : Graph} {cs : Constraints} {xs : List (List Edge)}
     (h : expandConstraints g cs = .ok xs) :
@@ -384,8 +387,17 @@ theorem node_translate_accepts (inp : NodeFlowInput) (l : List (List Node)) (hcs
         mapM_except_ok _ _ _ (fun v hv => expandedNode_of_mem ((hl c hc).2 v hv)))
     match l, hl, hm with
     | [], _, _ => rfl
-    | [] :: _, hl, _ => exact absurd rfl (hl [] (List.mem_cons_self ..)).1
-    | (a :: c) :: l', _, hm => exact hm
+    | c0 :: l', hl, hm =>
+      have hne : (c0 :: l').any List.isEmpty = false := by
+        cases hb : (c0 :: l').any List.isEmpty with
+        | false => rfl
+        | true =>
+          obtain ⟨x, hx, hxe⟩ := List.any_eq_true.1 hb
+          have : x = [] := by simpa using hxe
+          exact absurd this (hl x hx).1
+      unfold expandConstraints
+      simp only [hne]
+      exact hm
   have h3 : (l.map (·.map nodeEdge)).any (·.isEmpty) = false := by
     cases hb : (l.map (·.map nodeEdge)).any (·.isEmpty) with
     | false => rfl
